@@ -90,3 +90,57 @@ def write_tree(src_root, dst, rename=True):
                 total += n
                 open(p, "w").write(out)
     return total
+
+
+def private_function_names(src_root):
+    """private functions / methods (`_x`, not dunder, not property accessors, not also a data attribute) of the package."""
+    names, data = set(), set()
+    for dp, dn, fn in os.walk(os.path.join(src_root, "coxeter")):
+        for f in fn:
+            if f.endswith(".py"):
+                tree = ast.parse(open(os.path.join(dp, f)).read())
+                for n in ast.walk(tree):
+                    if isinstance(n, (ast.FunctionDef, ast.AsyncFunctionDef)) and n.name.startswith("_") and not n.name.startswith("__"):
+                        if any(isinstance(d, ast.Name) and d.id in ("property", "cached_property") or
+                               isinstance(d, ast.Attribute) and d.attr in ("setter", "getter", "deleter", "cached_property") for d in n.decorator_list):
+                            data.add(n.name)
+                        else:
+                            names.add(n.name)
+                    elif isinstance(n, ast.Attribute) and isinstance(n.ctx, ast.Store):
+                        data.add(n.attr)
+    return sorted(names - data)
+
+
+def rename_private(src, mapping):
+    tree = ast.parse(src)
+    for n in ast.walk(tree):
+        if isinstance(n, (ast.FunctionDef, ast.AsyncFunctionDef)) and n.name in mapping:
+            n.name = mapping[n.name]
+        elif isinstance(n, ast.Name) and n.id in mapping:
+            n.id = mapping[n.id]
+        elif isinstance(n, ast.Attribute) and n.attr in mapping:
+            n.attr = mapping[n.attr]
+        elif isinstance(n, ast.ImportFrom):
+            for al in n.names:
+                if al.name in mapping:
+                    al.name = mapping[al.name]
+                if al.asname in mapping:
+                    al.asname = mapping[al.asname]
+    return ast.unparse(tree) + "\n"
+
+
+def write_tree_private(src_root, dst, also_locals=False):
+    """copy <src_root>/coxeter to <dst>/coxeter with every private function / method renamed consistently (`_p<i>_`), optionally
+    with the function-local variables renamed as well; returns the number of renamed helpers."""
+    names = private_function_names(src_root)
+    mapping = {n: f"_p{i}_" for i, n in enumerate(names)}
+    shutil.copytree(os.path.join(src_root, "coxeter"), os.path.join(dst, "coxeter"), ignore=shutil.ignore_patterns("__pycache__"))
+    for dp, dn, fn in os.walk(os.path.join(dst, "coxeter")):
+        for f in fn:
+            if f.endswith(".py"):
+                q = os.path.join(dp, f)
+                new = rename_private(open(q).read(), mapping)
+                if also_locals:
+                    new, _ = process(new, rename=True)
+                open(q, "w").write(new)
+    return len(mapping)
